@@ -88,11 +88,17 @@ def extract():
     bnb = open(os.path.join(REPO, 'crates/cgt-core/src/matcher/bed_and_breakfast.rs')).read()
     c0 = _stmt(bnb, r'const\s+BNB_WINDOW_DAYS', 'BNB_WINDOW_DAYS')
     fn = _fn_text('crates/cgt-core/src/matcher/bed_and_breakfast.rs', ['match_bed_and_breakfast'])
-    s4 = _stmt(fn, r'let\s+days_diff\s*=', 'days_diff in match_bed_and_breakfast')
+    # the day-difference binding, whatever it is called: `let <v>[: T] = ( .. ).num_days();`
+    mv = re.search(r'let\s+(\w+)\s*(?::\s*[\w:]+\s*)?=\s*\([^;]*\)\s*\.num_days\(\)\s*;', fn)
+    if not mv: raise Unsupported('lost anchor: day-difference binding (.num_days()) in match_bed_and_breakfast')
+    dv = mv.group(1)
+    s4 = _stmt(fn, r'let\s+%s\s*(?::\s*[\w:]+\s*)?=' % dv, 'day-difference binding in match_bed_and_breakfast')
     s4 = re.sub(r'\bsell_tx\.date\b', 'sell_date', re.sub(r'(?<![\w.])tx\.date\b', 'tx_date', s4))
-    mc = re.search(r'if\s+([^{}]*days_diff[^{}]*)\{\s*continue;\s*\}', fn)
-    mb = re.search(r'if\s+([^{}]*days_diff[^{}]*)\{\s*break;\s*\}', fn)
-    if not mc or not mb: raise Unsupported('lost anchor: days_diff tests in match_bed_and_breakfast')
+    mc = re.search(r'if\s+([^{}]*\b%s\b[^{}]*)\{\s*continue;\s*\}' % dv, fn)
+    mb = re.search(r'if\s+([^{}]*\b%s\b[^{}]*)\{\s*break;\s*\}' % dv, fn)
+    if not mc or not mb: raise Unsupported('lost anchor: day-difference tests in match_bed_and_breakfast')
+    for cnd in (mc.group(1), mb.group(1)):
+        if re.sub(r'\b(%s|BNB_WINDOW_DAYS|\d+)\b' % dv, '', cnd).strip(' <>=!()') != '': raise Unsupported('day-difference test uses more than the difference and the window constant: ' + cnd.strip())
     out = f'''// GENERATED from /repo on every run by vf/kani.py -- expressions copied verbatim (rule R0 only)
 #![allow(unused_parens)]
 use cgt_core::{{CgtError, TaxPeriod}};
@@ -114,10 +120,10 @@ pub fn explain_year(date: NaiveDate) -> i32 {{
 {c0}
 pub fn bnb_days_diff(tx_date: NaiveDate, sell_date: NaiveDate) -> i64 {{
     {s4}
-    days_diff
+    {dv}
 }}
-pub fn bnb_not_after(days_diff: i64) -> bool {{ {mc.group(1).strip()} }}
-pub fn bnb_beyond_window(days_diff: i64) -> bool {{ {mb.group(1).strip()} }}
+pub fn bnb_not_after({dv}: i64) -> bool {{ {mc.group(1).strip()} }}
+pub fn bnb_beyond_window({dv}: i64) -> bool {{ {mb.group(1).strip()} }}
 '''
     p = os.path.join(KDIR, 'src', 'extracted.rs')
     old = open(p).read() if os.path.exists(p) else ''
@@ -142,6 +148,15 @@ def kani_cmd(harnesses, playback=False):
 
 
 def run_unit(harnesses, tier):
+    res = _run_unit(harnesses, tier)
+    # every harness asked for appears in the result, so that its obligations are reported as undecided (never silently dropped) on an error path
+    for h in harnesses:
+        res['harnesses'].setdefault(h, {'ok': False, 'failed': False, 'failed_checks': [], 'cover': None, 'time': 0, 'text': res.get('error') or '', 'missing': True})
+    res.setdefault('solver_s', 0)
+    return res
+
+
+def _run_unit(harnesses, tier):
     t0 = time.time()
     res = {'harnesses': {}, 'cmd': 'cd /verif/kani && ' + ' '.join(kani_cmd(harnesses)), 'error': None, 'extracted': None}
     try:
